@@ -416,7 +416,7 @@ func c12(c *Ctx) {
 				}
 			}
 			for a, tok := range lx.RuleToken {
-				if a >= 2 && tok == 0 {
+				if a >= 1 && tok == 0 {
 					exempt = append(exempt, a)
 				}
 			}
